@@ -186,6 +186,12 @@ func init() {
 		r.floor("C01/enc-sensitivity", 50)
 		wireKindHasStep(wc, r, "C01", []string{"enc"})
 		wireLESpellingSide(w, wc, r, "C01")
+		// a member spelled from the field's type, a `repeat` lost on one path of the model visitor: the declared field is omitted /
+		// encoded without its count
+		r.refile("C07/member-named-by-field", "C01/member-named-by-field", func(sr *Report) { memberNamedByField(w, wc, sr, "C07") }, func(o Obligation) bool {
+			return strings.Contains(o.Key, "a member of the message object")
+		})
+		r.refile("C08/repeat-is-modelled", "C01/repeat-is-modelled", func(sr *Report) { c08RepeatIsModelled(w, sr, w.ctxTable()) }, nil)
 		wireArms(wc, r, "C01", "enc")
 		wireLEColumn(wc, r, "C01", "enc")
 		wireArgOrder(wc, r, "C01")
@@ -217,6 +223,10 @@ func init() {
 		wireKindHasStep(wc, r, "C02", []string{"dec"})
 		wireLESpellingSide(w, wc, r, "C02")
 		wireListIdiomSide(w, wc, r, "C02")
+		r.refile("C07/member-named-by-field", "C02/member-named-by-field", func(sr *Report) { memberNamedByField(w, wc, sr, "C07") }, func(o Obligation) bool {
+			return strings.Contains(o.Key, "a member of the message object")
+		})
+		r.refile("C08/repeat-is-modelled", "C02/repeat-is-modelled", func(sr *Report) { c08RepeatIsModelled(w, sr, w.ctxTable()) }, nil)
 		wireSymmetry(wc, r)
 		wireArms(wc, r, "C02", "dec")
 		wireLEColumn(wc, r, "C02", "dec")
@@ -261,6 +271,8 @@ func init() {
 		wireMatch(w, wc, r)
 		wireSequenceFrame(w, r, "C05", map[string]bool{"MatchPair": true})
 		// a key maps to exactly one packet: the parse phase rejects a key that occurs twice in one table (across pairs and lists)
+		visitorKeepsNoPacketState(w, r, "C05")
+		fieldsWithTheirPacket(w, wc, r, "C05")
 		r.refile("C12/namespace", "C05/match-keys-unique", func(sr *Report) { c12Namespaces(w, sr) }, func(o Obligation) bool {
 			return strings.Contains(o.Key, "match key")
 		})
